@@ -445,7 +445,9 @@ func counterEncipher(key, iv, src, dst []byte) error {
 
 func encrypt(key, data []byte) (dst []byte, err error) {
 	dst = make([]byte, len(data))
-	err = counterEncipher(key, dst[:aes.BlockSize], data, dst)
+	// the counter starts at zero; it must not be sliced off the output buffer, which is shorter
+	// than one block when the data is (a DH public value of a degenerate exponent, for instance)
+	err = counterEncipher(key, make([]byte, aes.BlockSize), data, dst)
 	return
 }
 
